@@ -1,14 +1,16 @@
 #!/bin/bash
-# seedcollect.sh <NN> : copy the round-3 outputs of property CNN from /tmp/wt/r3-cNN-out into seeded/, remove the worktree
-n=$1
-for v in v3 v4; do
-  src=/tmp/wt/r3-c$n-out/$v
+# seedcollect.sh <NN> [round] : copy the outputs of a seed-producing sub-agent for property CNN from
+# /tmp/wt/r<round>-cNN-out into seeded/ (round 3 -> v3,v4; round 4 -> v5,v6), remove its worktree
+n=$1; r=${2:-3}
+a=$((2*r-3)); b=$((2*r-2))
+for v in v$a v$b; do
+  src=/tmp/wt/r$r-c$n-out/$v
   [ -f $src/patch.diff ] || continue
   dst=/verif/seeded/c$n-$v
   mkdir -p $dst
   cp $src/patch.diff $src/meta.json $dst/ 2>/dev/null
   cp $src/demo* $dst/ 2>/dev/null
 done
-git -C /repo worktree remove --force /tmp/wt/r3-c$n 2>/dev/null
-rm -rf /tmp/wt/r3-c$n-out
-ls /verif/seeded | grep "^c$n-"
+git -C /repo worktree remove --force /tmp/wt/r$r-c$n 2>/dev/null
+rm -rf /tmp/wt/r$r-c$n-out
+ls /verif/seeded | grep "^c$n-" | tr '\n' ' '; echo
